@@ -83,6 +83,7 @@ def family(tier):
     F.append(P('assert_stmt', 'fn f(a: int, b: int) -> int {\n    assert (== (+ a 0) a)\n    return b\n}\n', ab))
     # --- data: strings, arrays, structs, enums, tuples, globals ---
     F.append(P('str_literal', 'fn f(a: int, b: int) -> int {\n    let s: string = "ab"\n    (println s)\n    return (str_length s)\n}\n', ab, tier='quick'))
+    F.append(P('char_at_nonascii', 'fn f(a: int, b: int) -> int {\n    let s: string = "h\u00e9"\n    return (+ (char_at s 1) (char_at s 0))\n}\n', ab, tier='quick'))
     F.append(P('str_eq', 'fn f(a: int, b: int) -> bool {\n    let s: string = "ab"\n    let t: string = "ab"\n    return (== s t)\n}\n', ab, ret='bool', tier='quick'))
     F.append(P('str_concat', 'fn f(a: int, b: int) -> int {\n    let s: string = (+ "a" "bc")\n    (println s)\n    return (str_length s)\n}\n', ab, tier='noverdict'))
     idx = [('a', 'int', None), ('b', 'int', '$ >= 0 && $ <= 2')]
@@ -112,7 +113,7 @@ def release_bounds(kinds):
             'release_hashmap.0:1', 'release_hashmap.1:1', 'release_array.0:%d' % (6 if has('ARR') else 1),
             'release_struct.0:%d' % (4 if has('STRUCT') else 1), 'release_struct.1:%d' % (4 if has('STRUCT') else 1),
             'release_union.0:%d' % (4 if has('UNION') else 1), 'release_tuple.0:%d' % (4 if has('TUPLE') else 1), 'release_closure.0:1',
-            'fnv1a.0:14', 'vm_string_new.0:10', 'memcmp.0:14', 'strlen.0:14']
+            'fnv1a.0:14', 'vm_string_new.0:10', 'memcmp.0:14', 'strlen.0:14', 'strnlen.0:14']
 
 
 _prepared = {}
